@@ -259,6 +259,10 @@ def run(tier, seed):
     for i in (0, len(inputs) // 2, len(inputs) - 1):
         c = inputs[i][1]
         chk.sample({"input": inputs[i][0], "src": c.get("src") or c.get("src_bytes")[:40]})
+    # well-formed programs that keep very deep structures alive (shared with C03 / C10): no part of the
+    # run-time system may depend on the native stack for them
+    from checks import c03
+    c03.cli_deep_part(chk, tier, seed)
     return chk.finish()
 
 
